@@ -559,6 +559,18 @@ def check_string_reprs(ctx, prog, tag, rule, scope):
             listed = {v for v, _ in f.term(sb)["arms"]}
             n += 1
             if (by["String"] in listed) != (by["SmallStr"] in listed):
+                if by["String"] in listed:
+                    # only the heap representation carries the safe flag: an arm that goes on to look at that flag
+                    # (`String(ref s, StringType::Safe)`) has no inline counterpart to name
+                    reg = arms.arm_regions(prog, f, sb, REPR).get("String", set())
+                    looks_at_flag = False
+                    for b in reg:
+                        for st in f.stmts(b):
+                            rv = st.get("rv", {})
+                            if st["k"] == "assign" and rv.get("k") == "discr" and rv.get("adt") == "minijinja::value::StringType":
+                                looks_at_flag = True
+                    if looks_at_flag:
+                        continue
                 asym.append((sb, "String" if by["String"] in listed else "SmallStr"))
         if not asym:
             continue
